@@ -7,7 +7,8 @@ import vlib
 def check(run):
     quick = run.tier == "quick"
     exe = vlib.build_harness(run)
-    U = vlib.universe(run)
+    only = os.environ.get('VERIF_ECOS')
+    U = vlib.universe(run, only.split(',') if only else None)
     rnd = random.Random(run.seed)
     cap = 700 if quick else 4000
     jobs = []
@@ -18,7 +19,8 @@ def check(run):
     jobs += seeded_universes(U, rnd, 6 if quick else 40)
     total_judged = 0
     # shard: one trace per group of ecosystems to bound TLC memory/time
-    shards = [jobs[i::4] for i in range(4)] if quick else [[j] for j in jobs[:20]] + [jobs[20:]]
+    nU = len(U)
+    shards = [s for s in ([jobs[i::4] for i in range(4)] if quick else [[j] for j in jobs[:nU]] + [jobs[nU:]]) if s]
     import concurrent.futures as cf
     def one(k_sh):
         k, sh = k_sh
